@@ -107,11 +107,18 @@ def O(op, **kw):
         d_['as' if k == 'as_' else k] = v
     return d_
 
-def prologue(vol='v0', idx=0, root='d0'):
+def prologue(vol='v0', idx=None, root='d0'):
     return [O('open_volume', idx=idx, as_=vol), O('open_root', v=vol, as_=root)]
 
 def epilogue(vol='v0', root='d0'):
     return [O('close_dir', d=root), O('close_volume', v=vol), O('remount')]
+
+def fix_slot(image, ops):
+    """open_volume ops without an explicit index address the (first) volume of the image"""
+    slot = [v for v in image['vols'] if not v.get('foreign')][0]['slot']
+    for o in ops:
+        if o['op'] == 'open_volume' and o.get('idx') is None:
+            o['idx'] = slot
 
 # ------------------------------------------------------------------------------------------------
 # scripted histories (coverage obligations)
@@ -121,6 +128,7 @@ def scripted():
 
     def add(hid, img, ops, upc_b, lim=(4, 4, 1), **kw):
         image, upc, bounds = img
+        fix_slot(image, ops)
         h = dict(id=hid, src='script', image=image, bounds=bounds, limits=list(lim), ops=ops)
         h.update(kw)
         H.append(h)
@@ -541,6 +549,7 @@ def lfn_histories(seed, quick):
         v['root'] = root
         ops = prologue() + [O('iterate_lfn', d='d0', buf=780), O('iterate_lfn', d='d0', buf=rng.choice([0, 3, 5, 8, 20])), O('iterate', d='d0'),
                             O('find', d='d0', name=root[-1]['name'][:8].strip() + '.' + root[-1]['name'][8:].strip())] + epilogue()[:2]
+        fix_slot(dict(vols=[v]), ops)
         H.append(dict(id='L%d' % k, src='lfn', image=dict(vols=[v]), bounds=bounds, limits=[4, 4, 1], ops=ops, chk='listing'))
     # arbitrary directory bytes never crash a listing
     for k in range(6 if quick else 60):
@@ -560,6 +569,7 @@ def lfn_histories(seed, quick):
             v['root_entries'] = 512
         v['root'] = raw
         ops = prologue() + [O('iterate_lfn', d='d0', buf=780), O('iterate_lfn', d='d0', buf=7), O('iterate', d='d0')] + epilogue()[:2]
+        fix_slot(dict(vols=[v]), ops)
         H.append(dict(id='LG%d' % k, src='lfn-garbage', image=dict(vols=[v]), bounds=bounds, limits=[4, 4, 1], ops=ops, chk='listing'))
     return H
 
@@ -609,4 +619,51 @@ def mount_histories(seed, quick):
                O('open_file', d='d1', name='NEW.BIN', mode='Create', as_='f2'), O('write', f='f2', n=upc + 1), O('close_file', f='f2'),
                O('close_dir', d='d1'), O('close_dir', d='d0'), O('close_volume', v='v0'), O('remount')]
         H.append(dict(id='MT%d-%s-bpc%d-c%d' % (k, 'f32' if v['fat32'] else 'f16', v['bpc'], v['clusters']), src='mount', image=dict(vols=[v]), bounds=[0], limits=[4, 4, 1], ops=ops))
+    return H
+
+# ------------------------------------------------------------------------------------------------
+# C11: short histories whose every device call is failed in turn
+
+def fault_histories(seed, quick):
+    H = []
+    cap = 40 if quick else 100000
+
+    def add(hid, img, ops, lim=(4, 4, 1)):
+        image, upc, bounds = img
+        fix_slot(image, ops)
+        # epilogue: every handle is used and closed, then the medium is mounted afresh
+        vars_f = sorted({o['as'] for o in ops if o['op'] == 'open_file'})
+        vars_d = sorted({o['as'] for o in ops if o['op'] in ('open_dir', 'open_root')})
+        tail = []
+        for f_ in vars_f:
+            tail += [O('seek_start', f=f_, u=0), O('read', f=f_, n=3 * upc), O('read', f=f_, n=3 * upc), O('flush', f=f_), O('close_file', f=f_), O('close_file', f=f_)]
+        for d_ in reversed(vars_d):
+            tail += [O('iterate', d=d_), O('iterate', d=d_), O('close_dir', d=d_)]
+        tail += [O('close_volume', v='v0'), O('close_volume', v='v0'), O('remount')]
+        H.append(dict(id=hid, src='fault', image=image, bounds=bounds, limits=list(lim), ops=ops + tail, fault_enum=dict(cap=cap)))
+
+    for gname in (['G16a', 'G32a'] if quick else ['G16a', 'G32a', 'G16c', 'G32b', 'G16b']):
+        # read-only walks over a multi-cluster directory (FAT reads inside the walk), each call twice (retry)
+        img = image_of(gname, tree='T2', nfree=4)
+        upc = img[1]
+        ops = prologue() + [O('open_dir', d='d0', name='SUB', as_='d1'), O('iterate', d='d1'), O('iterate', d='d1'),
+                            O('find', d='d1', name='F11.Z'), O('find', d='d1', name='F11.Z'), O('find', d='d1', name='NOPE'), O('find', d='d1', name='NOPE'),
+                            O('iterate_lfn', d='d0'), O('iterate_lfn', d='d0'),
+                            O('open_file', d='d0', name='LONGFI~1.TXT', mode='ReadOnly', as_='f0'), O('read', f='f0', n=2 * upc), O('seek_start', f='f0', u=0), O('read', f='f0', n=2 * upc)]
+        add('FR-' + gname, img, ops)
+        # create in a multi-cluster directory, write, flush, overwrite, append, truncate, delete, mkdir
+        img = image_of(gname, tree='T2', nfree=5)
+        ops = prologue() + [O('open_dir', d='d0', name='SUB', as_='d1'),
+                            O('open_file', d='d1', name='F11.Z', mode='CreateOrAppend', as_='f0'), O('write', f='f0', n=upc + 1), O('flush', f='f0'),
+                            O('open_file', d='d1', name='NEW.BIN', mode='Create', as_='f1'), O('write', f='f1', n=2), O('seek_start', f='f0', u=1), O('write', f='f0', n=1),
+                            O('close_file', f='f1'), O('open_file', d='d1', name='NEW.BIN', mode='CreateOrTruncate', as_='f2'), O('write', f='f2', n=1),
+                            O('mkdir', d='d1', name='MK'), O('delete', d='d0', name='A.TXT'), O('open_file', d='d0', name='EMPTY.DAT', mode='CreateOrAppend', as_='f3'),
+                            O('write', f='f3', n=1)]
+        add('FW-' + gname, img, ops)
+        # directory growth and a full volume
+        img = image_of(gname, tree='T0', nfree=3)
+        ops = prologue() + [O('mkdir', d='d0', name='D'), O('open_dir', d='d0', name='D', as_='d1')]
+        ops += [x for i in range(15 if img[0]['vols'][0]['bpc'] == 1 else 3) for x in (O('open_file', d='d1', name='M%02d' % i, mode='Create', as_='g%d' % i), O('close_file', f='g%d' % i))]
+        ops += [O('open_file', d='d1', name='BIG', mode='Create', as_='f0'), O('write', f='f0', n=3 * upc), O('close_file', f='f0'), O('delete', d='d1', name='BIG')]
+        add('FG-' + gname, img, ops)
     return H
